@@ -122,6 +122,10 @@ def _verify_instance(eng: Engine, c: Contract, src: source.FuncSrc, prop: str, i
 		st.env[g] = v
 		fn.want.append(str(v.term))
 		fn.inputs[str(v.term)] = gt  # type: ignore[assignment]
+	if c.hook_only:
+		if c.post_hook is not None:
+			c.post_hook(eng, fn, st.copy())
+		return
 	for r, t in clause_terms(eng, fn, st, c.requires):
 		st.assume(t)
 	for k, expr in c.lets.items():
@@ -178,6 +182,8 @@ def _verify_instance(eng: Engine, c: Contract, src: source.FuncSrc, prop: str, i
 				if conds and len(conds) == len(allowed):
 					ts = [clause_terms(eng, fn, old, [cd])[0][1] for cd in conds]
 					eng.oblige(fn, f'raises-only-if:{exc.cname}', State(old.env, sx.pc), z3.Or(*ts), f'{exc.cname} raised implies ({" or ".join(conds)})', src.lineno)  # type: ignore[arg-type]
+	if c.post_hook is not None:
+		c.post_hook(eng, fn, old)
 	# canary: the negation of the conjunction of the postcondition must be refutable on some normal path
 	if c.ensures and n_normal == 0:
 		eng.notes.append(f'{fn.label}: no normal path (postcondition vacuous)')
